@@ -44,15 +44,67 @@ let clause_keys (c : string) : string list option =
   else if String.contains c ',' then Some (List.filter (fun x -> x <> "") (String.split_on_char ',' c))   (* IsPatternListOfUniqueValues: empty segments are skipped *)
   else Some [c]                                                                                            (* IsPatternUnique (also the empty clause) *)
 
-type fspec = FG of int | FL of int | FE of int | FX
-let fspec_of_string (s : string) : fspec =
-  if s = "x" then FX else
-  let v = int_of_string (String.sub s 1 (String.length s - 1)) in
-  match s.[0] with 'g' -> FG v | 'l' -> FL v | _ -> FE v
-let fspec_str = function FG v -> "g" ^ string_of_int v | FL v -> "l" ^ string_of_int v | FE v -> "e" ^ string_of_int v | FX -> "x"
-let fspec_match (f : fspec) (p : int) : bool =
-  if p = 0 then false else
-  let v = p - 1 in match f with FG k -> v > k | FL k -> v < k | FE k -> v = k | FX -> true
+(* filters, as in the harness:  x | x<f>[I|S][i<idx>] | (g|l|e)[<f>]<int>[i<idx>] | A[..] | O[..] | X[..] | N[..] ; fields v a b c of
+   the payload n:  v = n; a = n iff n even; b = [n/3 (, n iff n >= 6)] iff n mod 3 = 0; c iff n mod 5 <= 1: string when n odd, int32 7
+   when n even *)
+type fast = Ex of string * char * int | Cmp of char * string * int * int | And of fast list | Or of fast list | Xor of fast list | Nand of fast list
+type fspec = { src : string; ast : fast }
+let parse_filter (f : string) : fast =
+  let n = String.length f in
+  let pos = ref 0 in
+  let peek () = if !pos < n then Some f.[!pos] else None in
+  let digits () = let st = !pos in while !pos < n && f.[!pos] >= '0' && f.[!pos] <= '9' do incr pos done; String.sub f st (!pos - st) in
+  let rec go () : fast =
+    let c = f.[!pos] in
+    if c = 'A' || c = 'O' || c = 'X' || c = 'N' then begin
+      incr pos; if peek () = Some '[' then incr pos;
+      let kids = ref [] in
+      while !pos < n && f.[!pos] <> ']' do
+        kids := go () :: !kids;
+        if peek () = Some '.' then incr pos
+      done;
+      if !pos < n then incr pos;
+      let ks = List.rev !kids in
+      (match c with 'A' -> And ks | 'O' -> Or ks | 'X' -> Xor ks | _ -> Nand ks)
+    end else begin
+      incr pos;
+      let field = (match peek () with Some ('a' | 'b' | 'c' as x) -> incr pos; String.make 1 x | _ -> "v") in
+      if c = 'x' then begin
+        let tc = (match peek () with Some 'I' -> incr pos; 'I' | Some 'S' -> incr pos; 'S' | _ -> 'A') in
+        let idx = (match peek () with Some 'i' -> incr pos; int_of_string (digits ()) | _ -> 0) in
+        Ex (field, tc, idx)
+      end else begin
+        let neg = (peek () = Some '-') in if neg then incr pos;
+        let k = int_of_string (digits ()) in
+        let k = if neg then - k else k in
+        let idx = (match peek () with Some 'i' -> incr pos; int_of_string (digits ()) | _ -> 0) in
+        Cmp (c, field, k, idx)
+      end
+    end in
+  go ()
+let fspec_of_string (s : string) : fspec = { src = s; ast = parse_filter s }
+let fspec_str (f : fspec) : string = f.src
+let field_vals (fld : string) (vo : int option) : (char * int) list =
+  match vo with None -> [] | Some v ->
+  if v < 0 then (if fld = "v" then [('I', v)] else []) else
+  match fld with
+  | "v" -> [('I', v)]
+  | "a" -> if v mod 2 = 0 then [('I', v)] else []
+  | "b" -> if v mod 3 = 0 then ('I', v / 3) :: (if v >= 6 then [('I', v)] else []) else []
+  | "c" -> if v mod 5 <= 1 then [if v mod 2 = 1 then ('S', 0) else ('I', 7)] else []
+  | _ -> []
+let rec fast_match (a : fast) (v : int option) : bool =
+  match a with
+  | Ex (fld, tc, idx) -> (match List.nth_opt (field_vals fld v) idx with Some (t, _) -> tc = 'A' || tc = t | None -> false)
+  | Cmp (op, fld, k, idx) ->
+    (match List.nth_opt (field_vals fld v) idx with
+     | Some ('I', x) -> (match op with 'g' -> x > k | 'l' -> x < k | _ -> x = k)
+     | _ -> false)
+  | And ks -> List.for_all (fun k -> fast_match k v) ks
+  | Or ks -> List.exists (fun k -> fast_match k v) ks
+  | Xor ks -> (List.length (List.filter (fun k -> fast_match k v) ks)) mod 2 = 1
+  | Nand ks -> not (List.for_all (fun k -> fast_match k v) ks)
+let fspec_match (f : fspec) (p : int) : bool = fast_match f.ast (if p = 0 then None else Some (p - 1))
 
 let ops : matchOps = {
   clause_eqb = (fun a b -> (Obj.obj a : string) = (Obj.obj b : string));
